@@ -57,6 +57,7 @@ def add(run, tier):
     verify_functions(run, cs, {}, {conc.qualname: conc}, tier=tier)
     verify_functions(run, cp.build_write_sourcemap(sm), {}, {}, tier=tier)
     verify_functions(run, cp.build_normrelpath(utils), {}, {}, tier=tier)
+    verify_functions(run, cp.build_encode_sourcemap(sm), {}, {}, tier=tier)
     f = run_bounded(run, conc, tier, name='rt.verify_write_sourcemap_args')
     if f:
         run.failed('rt.verify_write_sourcemap_args', 'E4/bounded', f['args'], f, observed=f['required'],
